@@ -867,21 +867,53 @@ func (c *encCtx) specialCall(ce *ast.CallExpr) {
 	}
 }
 
-// isSizer: body is `if len(X) < n { X = make([]byte, ...) }`.
+// isSizer: a function of one integer parameter n and no results that compares len(X) with n and assigns
+// X = make([]byte, ...) - `if len(X) < n { X = make(...) }`, the guard-clause form `if n <= len(X) { return }; X = make(...)`, ...
 func isSizer(g *goLayouts, fd *ast.FuncDecl) bool {
-	if len(fd.Body.List) != 1 {
+	if fd.Body == nil || fd.Type.Params == nil || len(fd.Type.Params.List) != 1 || len(fd.Type.Params.List[0].Names) != 1 {
 		return false
 	}
-	iff, ok := fd.Body.List[0].(*ast.IfStmt)
-	if !ok || len(iff.Body.List) != 1 {
+	if fd.Type.Results != nil && len(fd.Type.Results.List) > 0 {
 		return false
 	}
-	as, ok := iff.Body.List[0].(*ast.AssignStmt)
-	if !ok || len(as.Rhs) != 1 {
-		return false
-	}
-	ce, ok := as.Rhs[0].(*ast.CallExpr)
-	return ok && g.isBuiltin(ce, "make")
+	prm := g.info.ObjectOf(fd.Type.Params.List[0].Names[0])
+	var target string
+	makes, compares, other := false, false, false
+	ast.Inspect(fd.Body, func(n ast.Node) bool {
+		switch x := n.(type) {
+		case *ast.AssignStmt:
+			if len(x.Lhs) == 1 && len(x.Rhs) == 1 {
+				if ce, ok := x.Rhs[0].(*ast.CallExpr); ok && g.isBuiltin(ce, "make") && isByteSliceType(g.info.TypeOf(x.Lhs[0])) {
+					makes = true
+					target = types.ExprString(x.Lhs[0])
+					return true
+				}
+			}
+			other = true
+		case *ast.BinaryExpr:
+			switch x.Op {
+			case token.LSS, token.LEQ, token.GTR, token.GEQ:
+				mentionsParam, mentionsLen := false, false
+				ast.Inspect(x, func(m ast.Node) bool {
+					if id, ok := m.(*ast.Ident); ok && g.info.ObjectOf(id) == prm {
+						mentionsParam = true
+					}
+					if ce, ok := m.(*ast.CallExpr); ok && (g.isBuiltin(ce, "len") || g.isBuiltin(ce, "cap")) {
+						mentionsLen = true
+					}
+					return true
+				})
+				if mentionsParam && mentionsLen {
+					compares = true
+				}
+			}
+		case *ast.ForStmt, *ast.RangeStmt, *ast.GoStmt, *ast.DeferStmt:
+			other = true
+		}
+		return true
+	})
+	_ = target
+	return makes && compares && !other
 }
 
 // normalise rewrites raw token streams: [uN:#len(f), raw:f] stays as is (it is the canonical expansion of a
@@ -1276,6 +1308,18 @@ func (g *goLayouts) decoderLayout(fd *ast.FuncDecl) *decResult {
 				if id, ok := as.Lhs[0].(*ast.Ident); ok {
 					obj := g.info.ObjectOf(id)
 					// which field receives it?
+					ast.Inspect(fd.Body, func(m ast.Node) bool {
+						if kv, ok := m.(*ast.KeyValueExpr); ok {
+							if key, ok := kv.Key.(*ast.Ident); ok {
+								if vid, ok := stripParenConv(g, kv.Value).(*ast.Ident); ok && g.info.ObjectOf(vid) == obj {
+									if _, isField := g.info.ObjectOf(key).(*types.Var); isField {
+										res.tail = snake(key.Name)
+									}
+								}
+							}
+						}
+						return true
+					})
 					ast.Inspect(fd.Body, func(m ast.Node) bool {
 						if a2, ok := m.(*ast.AssignStmt); ok && len(a2.Lhs) == 1 && len(a2.Rhs) == 1 {
 							if sel, ok := a2.Lhs[0].(*ast.SelectorExpr); ok {
@@ -1750,6 +1794,12 @@ func (g *goLayouts) blindIn(fd *ast.FuncDecl, depth int, seen map[*ast.FuncDecl]
 	ast.Inspect(fd.Body, func(n ast.Node) bool {
 		if why != "" {
 			return false
+		}
+		if rs, isRange := n.(*ast.RangeStmt); isRange && enc {
+			if _, isLit := rs.X.(*ast.CompositeLit); isLit {
+				why = "fields written by a loop over a literal list"
+				return false
+			}
 		}
 		ce, ok := n.(*ast.CallExpr)
 		if !ok {
